@@ -435,14 +435,22 @@ def run(ctx):
                        "out-of-range probe, or nesting depth >= 1")
     # thread-pair independence first (LINE events are switched off again before the enumeration)
     from checks import pair_ops  # noqa: PLC0415
-    from mc import pairs  # noqa: PLC0415
+    from mc import firstuse, pairs  # noqa: PLC0415
 
+    # first use in a process before anything else touches the library (the workers must be pristine)
+    fu_ops = [["enc", pair_ops.LEAVES[0]], ["dec", pair_ops.LEAVES[0], "ANYVALUE"], ["dec", pair_ops.TREES[1], "ANYVALUE"]]
+    firstuse.run_part(ctx, fu_ops, "C01", 2 if ctx.thorough else 1)
     ops = [["enc", d] for d in pair_ops.LEAVES + pair_ops.TREES[:1]]
     pair_execs = pairs.run_part(ctx, ops, "C01", 2 if ctx.thorough else 1)
     ctx.run_cases(check_case, cases(ctx), "c01", chunk=32)
 
 
 def replay(ctx, detail):
+    if isinstance(detail.get("case"), dict) and detail["case"].get("part") == "first-use":
+        from mc import firstuse  # noqa: PLC0415
+
+        firstuse.replay(ctx, detail["case"], "C01")
+        return
     if isinstance(detail.get("case"), dict) and detail["case"].get("part") == "pair":
         from mc import pairs  # noqa: PLC0415
 
